@@ -13,6 +13,9 @@ CLAIMED = {
  "C02": dict(tech=TECH + "binding ledger built only from the replies the servers wrote (double binding, bad address, renewal stability, declined-not-reoffered, availability after release/expiry)",
    text="Seeded exploration of DHCPv4 and DHCPv6 message histories from 2-5 clients against the real packet/message handlers (one handler task per message, bursts interleaved by the seeded scheduler), the real pools and the real lease-cleanup loop on a virtual clock that jumps across T1, expiry and the cleanup tick. Sampling, not proof.",
    note="Clients are a MAC (or MAC + own circuit-id when relayed) resp. a DUID; replies are captured at the packet connection (v4: handler parameter; v6: the server's WriteToUDP call is redirected). Genuine defects not repaired are in known_findings.json.", ref="§5 C02"),
+ "C04": dict(tech=TECH + "authentication-before-IP-service monitor over the session table and emitted frames; foreign-MAC frames must be no-ops",
+   text="Seeded exploration of out-of-protocol-order PPPoE discovery/session frame histories from owner and foreign MACs against the real pppoe.Server handlers over an in-memory raw socket, with the real radius.Client authenticating against a simulated RADIUS server (accept/reject/timeout) and the server's own goroutines and cleanup ticker as scheduler tasks. Sampling, not proof.",
+   note="Frames are handed to the handlers one at a time as the single receive loop does; activity counters are not part of 'changing' a session; only PAP is reachable through the server's dispatch (CHAP frames are not dispatched by it).", ref="§5 C04"),
 }
 NA = {
  "C06": "static relation between Go and C declarations (sizes, offsets, byte order, key derivation for all inputs): no schedule, clock, fault or history can change it, so it is not a simulation target",
